@@ -182,6 +182,29 @@ def for_loop_order_insensitive(F, call, deterministic):
                  and [x["name"] for x in hwalk(n["recv"]) if x["k"] == "Path" and x.get("res") == "local"] == [v] and n["line"] > end_line]
         if not sorts:
             return False, "Vec `%s` filled in hash order is not sorted after the loop" % v
+        # a sort erases the hash order only where its order is TOTAL on the elements: a plain sort of an Ord element
+        # is (ties are equal elements); a sort by a KEY is only when the key is unique - ties keep the hash order
+        # (stable sort) or any order (unstable).  Unique keys are reviewed facts (tables/c10_unique_sort_keys.json);
+        # the key closure must read at least the reviewed fields (seed C10-r sorted the JSDoc candidates by the
+        # position of the token they lead, which two stacked comments share)
+        first = min(sorts, key=lambda n_: n_["line"])
+        if first["method"] not in ("sort", "sort_unstable"):
+            import json as _json, os as _os
+            tab = _json.load(open(_os.path.join(_os.path.dirname(_os.path.dirname(_os.path.abspath(__file__))), "tables", "c10_unique_sort_keys.json")))["keys"]
+            owner_id = f.root or f.id
+            read = {x["name"] for a_ in first.get("args", []) for x in hwalk(a_) if x["k"] == "Field"}
+            # (a key function of the compiler: follow it one level)
+            for a_ in first.get("args", []):
+                for x in hwalk(a_):
+                    if x["k"] in ("Call", "MethodCall"):
+                        g2 = F._callee_gid("beff_core", x.get("resolved") or x.get("callee") or "")
+                        if g2 in F.hir:
+                            read |= {y["name"] for y in hwalk(F.hir[g2]["body"]) if y["k"] == "Field"}
+            ent = [e for e in tab if owner_id.endswith(e["fn_suffix"]) and e["vec"] == v]
+            if not ent:
+                return False, "Vec `%s` filled in hash order is sorted by a key (%s) that no reviewed entry of tables/c10_unique_sort_keys.json states to be unique: elements with equal keys stay in hash order" % (v, ", ".join(sorted(read)) or "?")
+            if not set(ent[0]["unique_fields"]) <= read:
+                return False, "Vec `%s` filled in hash order is sorted by (%s), which no longer includes the reviewed unique key (%s): elements with equal keys stay in hash order - or, with an unstable sort, in any order - so the result depends on the iteration order of the hash container (for swc's comment map: on the number of shards, i.e. on the CPU count of the process)" % (v, ", ".join(sorted(read)) or "?", ", ".join(ent[0]["unique_fields"]))
         # between the loop and the sort the Vec is still in hash order: a loop over it there may only regroup it per key
         # (push into the per-key Vec obtained from entry() of an ordered map, as inside the loop itself: one hash entry
         # per key, so each group keeps the order of its entry) - b105 groups before it sorts
